@@ -458,6 +458,29 @@ class World:
             "once": step.get("once", False),
         }
 
+    def op_console_script(self, step) -> None:
+        self.console.scripts[step["kind"]] = list(step["actions"])
+
+    def op_user_hb_start(self, step) -> None:
+        """Bare HeartbeatManager with a custom configuration on the socket-level client."""
+        import pyairtouch.comms.heartbeat as hb
+
+        gen = self.gen
+
+        def match(message) -> bool:
+            try:
+                return adapter.reading_of(gen, None, message)["kind"] == "version"
+            except adapter.AdapterError:
+                return False
+
+        cfg = hb.HeartbeatConfig(message=adapter.message_from(gen, {"kind": "version_request"}), response_match=match,
+                                 interval=step["interval"], timeout=step["timeout"])
+        self.hb = hb.HeartbeatManager(self.loop, self.sock, cfg)
+        self._spawn_user(step, lambda: self.hb.start())
+
+    def op_user_hb_stop(self, step) -> None:
+        self._spawn_user(step, lambda: self.hb.stop())
+
     def op_console_delay(self, step) -> None:
         self.console.answer_delay = step["delay"]
 
